@@ -44,11 +44,14 @@ Theorem C07_blksize_rule : forall lim na k opts,
 Proof. exact blksize_rule. Qed.
 Print Assumptions C07_blksize_rule.
 
+(* times are in ticks of 1/1024 s: default_timeout and max_timeout may be fractional numbers of seconds (1.5 s =
+   1536 ticks); an acknowledged timeout of n seconds is used as n * 1024 ticks, otherwise the default is used
+   EXACTLY (not truncated to whole seconds) *)
 Theorem C07_timeout_rule : forall lim na k opts,
   let r := negotiate ncurrent lim na k opts in
-  (forall n, requested opts (lit "timeout") = Some (dec n) -> 1 <= n <= max_tmo lim ->
-     oack_get r "timeout" = requested opts (lit "timeout") /\ n_tmo r = n) /\
-  ((forall n, 1 <= n <= max_tmo lim -> requested opts (lit "timeout") <> Some (dec n)) ->
+  (forall n, requested opts (lit "timeout") = Some (dec n) -> 1 <= n /\ n * TICKS_PER_SECOND <= max_tmo lim ->
+     oack_get r "timeout" = requested opts (lit "timeout") /\ n_tmo r = n * TICKS_PER_SECOND) /\
+  ((forall n, 1 <= n /\ n * TICKS_PER_SECOND <= max_tmo lim -> requested opts (lit "timeout") <> Some (dec n)) ->
      oack_get r "timeout" = None /\ n_tmo r = default_tmo lim).
 Proof. exact timeout_rule. Qed.
 Print Assumptions C07_timeout_rule.
@@ -148,13 +151,13 @@ Print Assumptions C07_tsize_rule_refuted_D3_pipe.
 Definition ex_D2 : tcase :=
   {| t_content := [1; 2; 3]; t_chunks := []; t_netascii := false;
      t_options := [(lit "blksize", lit "1400")];
-     t_limits := {| max_bs := 1024; max_tmo := 30; default_tmo := 2 |}; t_retries := 1; t_wrap := Some 0;
+     t_limits := {| max_bs := 1024; max_tmo := 30720; default_tmo := 2048 |}; t_retries := 1; t_wrap := Some 0;
      t_kind := KNoFileno; t_events := [Recv 1 0 [0; 4; 0; 0]; Recv 2 0 [0; 4; 0; 1]];
      t_proc := 0; t_v := current; t_nv := nv_D2; t_na_always_skip := false |}.
 Definition ex_D3 : tcase :=
   {| t_content := [5; 6; 7; 8; 9; 10]; t_chunks := []; t_netascii := false;
      t_options := [(lit "TSIZE", lit "0")];
-     t_limits := {| max_bs := 1024; max_tmo := 30; default_tmo := 2 |}; t_retries := 1; t_wrap := Some 0;
+     t_limits := {| max_bs := 1024; max_tmo := 30720; default_tmo := 2048 |}; t_retries := 1; t_wrap := Some 0;
      t_kind := KRealFile 10 4 true; t_events := [Recv 1 0 [0; 4; 0; 0]; Recv 2 0 [0; 4; 0; 1]];
      t_proc := 0; t_v := current; t_nv := nv_D3; t_na_always_skip := false |}.
 Theorem C07_refuted_D2 : holds ex_D2 (run_model ex_D2) <> [].
@@ -164,6 +167,21 @@ Theorem C07_refuted_D3 : holds ex_D3 (run_model ex_D3) <> [].
 Proof. vm_compute. discriminate. Qed.
 Print Assumptions C07_refuted_D3.
 
+(* a fractional default time-out (1.5 s = 1536 ticks) is used exactly when the time-out option is not acknowledged
+   (here: rejected because it exceeds the fractional maximum of 2.5 s), and the acknowledged whole number otherwise *)
+Definition ex_fractional (tm : str) : tcase :=
+  {| t_content := [1; 2; 3]; t_chunks := []; t_netascii := false; t_options := [(lit "timeout", tm)];
+     t_limits := {| max_bs := 65464; max_tmo := 2560; default_tmo := 1536 |}; t_retries := 1; t_wrap := Some 0;
+     t_kind := KNoFileno; t_events := []; t_proc := 0%Z;
+     t_v := current; t_nv := ncurrent; t_na_always_skip := false |}.
+Example C07_fractional_default :
+  proj_negotiation (run_model (ex_fractional (lit "3"))) =
+    L [L [I 0; L [I 3; I 1; I 3]]; L [I 1536]; L [I 1536; L [I 3; I 1; I 3]]; L [I 3072]]%Z /\
+  n_tmo (t_neg (ex_fractional (lit "2"))) = 2048 /\
+  holds (ex_fractional (lit "3")) (run_model (ex_fractional (lit "3"))) = [] /\
+  holds (ex_fractional (lit "2")) (run_model (ex_fractional (lit "2"))) = [].
+Proof. vm_compute. repeat split; reflexivity. Qed.
+
 (* non-vacuity: mixed-case names, a duplicate differing in case (the later one wins), clamping, an echoed
    time-out, a transfer size at a non-zero offset, an unknown option; three blocks of 9, 9 and 2 bytes *)
 Definition ex_case : tcase :=
@@ -171,7 +189,7 @@ Definition ex_case : tcase :=
      t_netascii := false;
      t_options := [(lit "blksize", lit "8"); (lit "TimeOut", lit "3"); (lit "BLKSIZE", lit "1400");
                    (lit "windowsize", lit "4"); (lit "tsize", lit "0")];
-     t_limits := {| max_bs := 9; max_tmo := 5; default_tmo := 2 |}; t_retries := 1; t_wrap := Some 0;
+     t_limits := {| max_bs := 9; max_tmo := 5120; default_tmo := 2048 |}; t_retries := 1; t_wrap := Some 0;
      t_kind := KBytesIO 23 3;
      t_events := [Recv 1 0 [0; 4; 0; 0]; Recv 2 0 [0; 4; 0; 1]; Recv 3 0 [0; 4; 0; 2]; Recv 4 0 [0; 4; 0; 3]];
      t_proc := 0; t_v := current; t_nv := ncurrent; t_na_always_skip := false |}.
